@@ -171,7 +171,7 @@ func check(r *sup.CaseResult, x *run, res *directResult) {
 						failedBefore = true
 					}
 				}
-				if p.Mode == "shared" && failedBefore {
+				if p.Mode == "shared" && (failedBefore || p.syntax > 0) { // a malformed line fails without a log entry
 					r.AddObs("valid_submissions_refused_after_a_failure_in_the_shared_scope", 1)
 				} else if r.Inconclusive == "" {
 					r.Inconclusive = fmt.Sprintf("submission of %s (wait %q, all existing) was refused: %v", t.Name, t.Waits, x.runErr[i])
@@ -426,7 +426,7 @@ func check(r *sup.CaseResult, x *run, res *directResult) {
 		}
 		if p.Mode == "separated" && r.Inconclusive == "" {
 			for _, t := range p.tops {
-				if !x.accepted[t.top] || v.first[t.idx] != 0 {
+				if !x.accepted[t.top] || v.first[t.idx] != 0 || t.Body[0].Probe.Fail == "syntax" {
 					continue
 				}
 				if _, bad := failedPre[t.idx]; !bad {
